@@ -74,7 +74,9 @@ func DeclareURL(raw, scheme, hostname, port, path, rawquery, fragment string) {
 }
 
 // DeclareURLParts declares raw to be exactly the canonical concatenation
-//   [scheme "://" | "//" when scheme is ""] hostLit portPart path ["?" rawquery] ["#" fragment]
+//
+//	[scheme "://" | "//" when scheme is ""] hostLit portPart path ["?" rawquery] ["#" fragment]
+//
 // of delimiter-free components (hostLit a registered name or a bracketed IPv6 literal, portPart ""
 // or ":" digits*, path "" or "/..."; no bare "?" or "#"). Under this contract the decomposition is
 // unique, which the engine uses to compare two declared URLs component-wise.
